@@ -13,6 +13,9 @@ enum Mode {
     Near,
     /// wildcard: equal to every element that is not NaN-like (symmetric, not transitive)
     Wild,
+    /// ASYMMETRIC: `a == b` iff a's class is at most b's (so `stored == argument` and `argument == stored`
+    /// differ): the storage compares the stored value with the argument, in that order
+    Below,
 }
 
 #[derive(Clone, Debug)]
@@ -25,6 +28,7 @@ impl PartialEq for El {
     fn eq(&self, o: &El) -> bool {
         match (self.mode, o.mode) {
             (Mode::Never, _) | (_, Mode::Never) => false,
+            (Mode::Below, _) | (_, Mode::Below) => self.class <= o.class,
             (Mode::Wild, _) | (_, Mode::Wild) => true,
             (Mode::Near, _) | (_, Mode::Near) => (self.class as i64 - o.class as i64).abs() <= 1,
             (Mode::Class, Mode::Class) => self.class == o.class,
@@ -135,7 +139,7 @@ fn play_opt(hist: &[(OpK, u32, Mode)], r: &mut Report, rp: &dyn Fn() -> Json, st
 }
 
 fn play_shape<T: Elem>(hist: &[(OpK, u32, Mode)], r: &mut Report, rp: &dyn Fn() -> Json, stage: &str, sparse: bool) {
-    let show_all = |h: &[(OpK, u32, Mode)]| h.iter().map(|(o, c, m)| format!("{}({}{})", if matches!(o, OpK::Append) { "append" } else { "fetch_or_append" }, c, match m { Mode::Never => "~nan", Mode::Near => "~near", Mode::Wild => "~any", Mode::Class => "" })).collect::<Vec<_>>().join(" ");
+    let show_all = |h: &[(OpK, u32, Mode)]| h.iter().map(|(o, c, m)| format!("{}({}{})", if matches!(o, OpK::Append) { "append" } else { "fetch_or_append" }, c, match m { Mode::Never => "~nan", Mode::Near => "~near", Mode::Wild => "~any", Mode::Below => "~below", Mode::Class => "" })).collect::<Vec<_>>().join(" ");
     let show = || if hist.len() <= 320 { show_all(hist) } else { format!("{} ...({} more operations)... {}", show_all(&hist[..40]), hist.len() - 240, show_all(&hist[hist.len() - 200..])) };
     let mut st: Storage<T> = Storage::new();
     let mut model: Vec<T> = vec![];
@@ -214,12 +218,13 @@ fn gen_hist(rng: &mut Rng) -> Vec<(OpK, u32, Mode)> {
     };
     let classes = rng.range(1, 8) as u32;
     // equality style of this history: 0 exact classes, 1 near (non-transitive), 2 exact + wildcards, 3 mixed
-    let style = rng.below(4);
+    let style = rng.below(5);
     (0..n)
         .map(|_| {
             let op = if rng.chance(1, 2) { OpK::Append } else { OpK::Fetch };
             let mode = match (style, rng.below(12)) {
                 (_, 0) | (_, 1) => Mode::Never,
+                (4, 2..=8) => Mode::Below,
                 (1, _) => Mode::Near,
                 (2, 2) | (2, 3) => Mode::Wild,
                 (3, 2) => Mode::Wild,
@@ -470,7 +475,7 @@ fn capacity<T: CapEl>(limit: u64, r: &mut Report, rp: &dyn Fn() -> Json) {
 }
 
 pub fn run(cfg: &Cfg, rep: &mut Report) {
-    rep.rule = "histories of append / fetch_or_append over elements with scripted symmetric equality relations (class equality ignoring a unique serial; NaN-like elements equal to nothing; non-transitive 'near' equality; wildcards equal to everything) replayed against a Vec model; after every operation the returned token index, its lookup and the lookups of ALL earlier tokens are compared; exhaustive over all histories up to length 6 (quick: 4) of {append,fetch} x {3 classes, NaN-like, wildcard} under exact and under near equality, then random histories up to 200 operations, the same over other element shapes (an enum whose equality ignores the variant, a large heap-owning struct), long histories (300..4100 stored values, sparse re-checks of earlier tokens) and capacity histories (storages of zero-sized and one-byte elements grown past 2^24 values, thorough: past 2^32 values, every append's index compared, fetch_or_append and token re-lookups around every power of two). distinct_nontrivial = distinct histories (by length bucket and content hash)".into();
+    rep.rule = "histories of append / fetch_or_append over elements with scripted equality relations (class equality ignoring a unique serial; NaN-like elements equal to nothing; non-transitive 'near' equality; wildcards equal to everything; an ASYMMETRIC relation, the stored value being the left operand as in `stored == argument`) replayed against a Vec model; after every operation the returned token index, its lookup and the lookups of ALL earlier tokens are compared; exhaustive over all histories up to length 6 (quick: 4) of {append,fetch} x {3 classes, NaN-like, wildcard} under exact and under near equality, then random histories up to 200 operations, the same over other element shapes (an enum whose equality ignores the variant, a large heap-owning struct), long histories (300..4100 stored values, sparse re-checks of earlier tokens) and capacity histories (storages of zero-sized and one-byte elements grown past 2^24 values, thorough: past 2^32 values, every append's index compared, fetch_or_append and token re-lookups around every power of two). distinct_nontrivial = distinct histories (by length bucket and content hash)".into();
     let miri = cfg.mode == "miri";
     // exhaustive small histories: alphabet of 10 symbols = {append, fetch} x {class0, class1, class2, nan, wildcard},
     // played twice: with exact class equality and with the non-transitive "near" equality
